@@ -1,13 +1,18 @@
 """Contracts for the Selection classes of genjax._src.core.generative.choice_map  (C18; lemmas reused by C07/C10/C25).
 
-Membership is defined by the real code:  mem(S, ()) = S.check(),  mem(S, a::p) = mem(S.get_subselection(a), p).
-For every operator the contract proves, for ARBITRARY operand selections (opaque values of class Selection whose concrete
-class is symbolic) and an arbitrary address component c:
-   base:  check(op(a, b))            ==  boolean-op(check(a), check(b))
-   step:  get_subselection(op(a,b), c) is *structurally* op(get_subselection(a,c), get_subselection(b,c))
-By induction on the address length (the induction hypothesis is the same statement one level down, for arbitrary
-operands, so structural equality of the step suffices) membership of every address is the Boolean combination.  This is
-unbounded in selection depth and address length (stronger than the bounded-exhaustive wording of C18)."""
+Specification = a denotation of selection values as sets of static addresses:
+
+    Den(AllSel, p) = True        Den(NoneSel, p) = False      Den(LeafSel, p) = (p == ())
+    Den(StaticSel(s, a), p) = p != () and (a is ... or head(p) == a) and Den(s, tail(p))
+    Den(OrSel(x, y), p) = Den(x, p) or Den(y, p)     AndSel: and      ComplementSel(s): not Den(s, p)
+    Den(opaque selection x, p) = mem(x, p)   with   mem(x, ()) = x.check(),  mem(x.get_subselection(c), q) = mem(x, c::q)
+
+for an ARBITRARY address p (an opaque list: unbounded length).  Obligations, all on the real code:
+  * class level: every class's check() / get_subselection(c) agree with the denotation (one unfolding step, any tail);
+  * operator level: the value returned by the real a | b, a & b, ~a (the simplifying `build` constructors) denotes the Boolean
+    combination of the operands' denotations, for arbitrary (opaque, any class) operands and an arbitrary address.
+The operator obligations are SEMANTIC (about the set denoted by the returned value), so an alternative correct simplifier still
+verifies; unbounded in selection depth and address length (stronger than the bounded-exhaustive wording of C18)."""
 from pyvc.task import task
 from pyvc.values import Obj, SBool, UVal
 from .common import *
@@ -20,14 +25,84 @@ FUNCS = [C + f"{k}.{m}" for k in ("AllSel", "NoneSel", "LeafSel", "StaticSel", "
          C + "Selection.__and__", C + "Selection.__invert__", C + "Selection.extend", C + "_SelectionBuilder.__getitem__"]
 
 
-def sel(E, name):
-    s = E.opaque(name, "Selection")
-    E.I.T.sel_nf(s.t)          # operands are in normal form (preserved by every constructor: *.normal_form clauses)
-    return s
+class Addr:
+    """abstract static address (list of components) with nil / cons"""
+
+    def __init__(self, E):
+        z3 = E.z3
+        c = E.ctx
+        self.E = E
+        self.is_nil = c.fn("addr_is_nil", U, z3.BoolSort())
+        self.head, self.tail, self.cons = c.fn("addr_head", U, U), c.fn("addr_tail", U, U), c.fn("addr_cons", U, U, U)
+        self.mem = c.fn("sel_member", U, U, z3.BoolSort())
+        self.nil = z3.Const("addr_nil", U)
+        E.assume(self.is_nil(self.nil))
+
+    def mk_cons(self, comp, q):
+        return self.mk_cons_u(self.E.I.to_u(comp), q)
+
+    def mk_cons_u(self, cu, q):
+        t = self.cons(cu, q)
+        self.E.assume(self.E.z3.And(self.E.z3.Not(self.is_nil(t)), self.head(t) == cu, self.tail(t) == q))
+        return t
+
+
+def den(E, A, v, p):
+    """denotation of selection value v at address term p (z3 Bool)"""
+    z3, I = E.z3, E.I
+    if isinstance(v, UVal):
+        view = E.ctx.views.get(v.t.get_id())
+        if view is not None and view is not v:
+            d = den(E, A, view, p)
+            E.assume(A.mem(v.t, p) == d)      # x IS that object: its membership function is the one of its class
+            return d
+        # definition of membership for an opaque selection, normalised towards the sub-selection (which the real code
+        # may have narrowed to a class):   mem(x, c::q) = mem(x.get_subselection(c), q)        mem(x, ()) = x.check()
+        if z3.is_app(p) and p.decl().name() == "addr_cons":
+            return den(E, A, UVal(I.T.sel_sub(v.t, p.arg(0)), "Selection"), p.arg(1))
+        if z3.eq(p, A.nil):
+            return I.T.sel_check(v.t)
+        return A.mem(v.t, p)
+    n = v.cls.name
+    if n == "AllSel":
+        return z3.BoolVal(True)
+    if n == "NoneSel":
+        return z3.BoolVal(False)
+    if n == "LeafSel":
+        return A.is_nil(p)
+    if n == "StaticSel":
+        a = v.fields["addr"]
+        wild = z3.BoolVal(True) if a is Ellipsis else (I.to_u(a) == I.to_u(Ellipsis))    # `...` matches every component
+        if z3.is_app(p) and p.decl().name() == "addr_cons":
+            return z3.And(z3.Or(wild, p.arg(0) == I.to_u(a)), den(E, A, v.fields["s"], p.arg(1)))
+        return z3.And(z3.Not(A.is_nil(p)), z3.Or(wild, A.head(p) == I.to_u(a)), den(E, A, v.fields["s"], A.tail(p)))
+    if n == "OrSel":
+        return z3.Or(den(E, A, v.fields["s1"], p), den(E, A, v.fields["s2"], p))
+    if n == "AndSel":
+        return z3.And(den(E, A, v.fields["s1"], p), den(E, A, v.fields["s2"], p))
+    if n == "ComplementSel":
+        return z3.Not(den(E, A, v.fields["s"], p))
+    raise Exception(f"no denotation for {n}")
+
+
+def sel(E, A, name):
+    """arbitrary selection: opaque, any class"""
+    return E.opaque(name, "Selection")
+
+
+def opaque_facts(E, A, x, c, q):
+    """definition of membership for an opaque selection x (instances at component c / tail q):
+       mem(x, ()) = x.check()      mem(x.get_subselection(c), q) = mem(x, c::q)"""
+    T = E.I.T
+    E.assume(A.mem(x.t, A.nil) == T.sel_check(x.t))
+    E.assume(A.mem(T.sel_sub(x.t, E.I.to_u(c)), q) == A.mem(x.t, A.mk_cons(c, q)))
 
 
 def comp(E, name):
-    return E.opaque(name, "str")
+    """an address component (StaticAddressComponent: never the `...` wildcard)"""
+    c = E.opaque(name, "str")
+    E.assume(E.I.to_u(c) != E.I.to_u(Ellipsis))
+    return c
 
 
 def check(E, s):
@@ -38,20 +113,25 @@ def _binop(kind, cls, zop):
     @task(f"selection.{kind}", props=["C18"], functions=FUNCS)
     def t(E):
         z3 = E.z3
-        a, b, c = sel(E, "a"), sel(E, "b"), comp(E, "c")
-        r = E.method(a, f"__{kind}__", b)                      # real Selection.__or__/__and__  ->  XSel.build
+        A = Addr(E)
+        a, b = sel(E, A, "a"), sel(E, A, "b")
+        p = E.ctx.const("p", U)                                  # an arbitrary address
+        E.assume(A.mem(a.t, A.nil) == E.I.T.sel_check(a.t))
+        E.assume(A.mem(b.t, A.nil) == E.I.T.sel_check(b.t))
+        r = E.method(a, f"__{kind}__", b)                        # real Selection.__or__/__and__ -> XSel.build
         E.cover(f"selection.{kind}.reached")
-        # evaluate operand memberships AFTER the call, so that class knowledge gained by `match` is shared
-        E.prove(f"C18.{cls}.build.base_check", check(E, r) == getattr(z3, zop)(check(E, a), check(E, b)))
-        sub_r = E.method(r, "get_subselection", c)
-        rhs = E.method(E.method(a, "get_subselection", c), f"__{kind}__", E.method(b, "get_subselection", c))
-        E.prove(f"C18.{cls}.build.step_subselection_commutes", E.eq(sub_r, rhs))
-        # the simplifying constructor selects the same addresses as the plain node
+        op = getattr(z3, zop)
+        E.prove(f"C18.{cls}.build.membership_is_the_boolean_combination", den(E, A, r, p) == op(den(E, A, a, p), den(E, A, b, p)))
+        E.prove(f"C18.{cls}.build.check_is_the_boolean_combination", check(E, r) == op(check(E, a), check(E, b)))
+        # class level: the plain node's own methods agree with its denotation
         plain = E.new(C + cls, s1=a, s2=b)
-        E.prove(f"C18.{cls}.build.simplification_preserves_check", check(E, r) == check(E, plain))
-        E.prove(f"C18.{cls}.build.simplification_preserves_subselection",
-                E.eq(sub_r, E.method(plain, "get_subselection", c)))
-        E.refutable(f"selection.{kind}", check(E, r) == check(E, a))
+        c, q = comp(E, "c"), E.ctx.const("q", U)
+        opaque_facts(E, A, a, c, q)
+        opaque_facts(E, A, b, c, q)
+        E.prove(f"C18.{cls}.check_agrees_with_denotation", check(E, plain) == den(E, A, plain, A.nil))
+        sub = E.method(plain, "get_subselection", c)
+        E.prove(f"C18.{cls}.get_subselection_agrees_with_denotation", den(E, A, sub, q) == den(E, A, plain, A.mk_cons(c, q)))
+        E.refutable(f"selection.{kind}", den(E, A, r, p) == den(E, A, a, p))
     return t
 
 
@@ -63,55 +143,50 @@ _binop("and", "AndSel", "And")
 def t_invert(E):
     z3 = E.z3
     E.I.abstract_methods.pop(("Selection", "__invert__"))     # run the REAL Selection.__invert__ / ComplementSel.build
-    a, c = sel(E, "a"), comp(E, "c")
+    A = Addr(E)
+    a = sel(E, A, "a")
+    p = E.ctx.const("p", U)
+    E.assume(A.mem(a.t, A.nil) == E.I.T.sel_check(a.t))
     r = E.method(a, "__invert__")
-    E.prove("C18.ComplementSel.build.base_check", check(E, r) == z3.Not(check(E, a)))
-    sub_r = E.method(r, "get_subselection", c)
-    rhs = E.method(E.method(a, "get_subselection", c), "__invert__")
-    E.prove("C18.ComplementSel.build.step_subselection_commutes", E.eq(sub_r, rhs))
+    E.prove("C18.ComplementSel.build.membership_is_the_negation", den(E, A, r, p) == z3.Not(den(E, A, a, p)))
+    E.prove("C18.ComplementSel.build.check_is_the_negation", check(E, r) == z3.Not(check(E, a)))
     plain = E.new(C + "ComplementSel", s=a)
-    E.prove("C18.ComplementSel.build.simplification_preserves_check", check(E, r) == check(E, plain))
-    E.prove("C18.ComplementSel.build.simplification_preserves_subselection",
-            E.eq(sub_r, E.method(plain, "get_subselection", c)))
-    E.prove("C18.ComplementSel.build.normal_form", not (isinstance(r, Obj) and r.cls.name == "ComplementSel" and (
-        (isinstance(r.fields["s"], Obj) and r.fields["s"].cls.name in ("AllSel", "NoneSel", "ComplementSel")) or
-        (isinstance(r.fields["s"], UVal) and r.fields["s"].t.get_id() in E.ctx.views
-         and E.ctx.views[r.fields["s"].t.get_id()].cls.name in ("AllSel", "NoneSel", "ComplementSel")))))
-    E.prove("C18.ComplementSel.double_complement", E.Implies(
-        isinstance(r, Obj) and r.cls.name == "ComplementSel", E.eq(E.method(r, "__invert__"), a)))
-    E.refutable("selection.invert", check(E, r) == check(E, a))
+    c, q = comp(E, "c"), E.ctx.const("q", U)
+    opaque_facts(E, A, a, c, q)
+    E.prove("C18.ComplementSel.check_agrees_with_denotation", check(E, plain) == den(E, A, plain, A.nil))
+    sub = E.method(plain, "get_subselection", c)
+    E.prove("C18.ComplementSel.get_subselection_agrees_with_denotation", den(E, A, sub, q) == den(E, A, plain, A.mk_cons(c, q)))
+    E.refutable("selection.invert", den(E, A, r, p) == den(E, A, a, p))
 
 
 @task("selection.atoms", props=["C18"], functions=FUNCS)
 def t_atoms(E):
     z3 = E.z3
+    A = Addr(E)
     c, d = comp(E, "c"), comp(E, "d")
-    S = E.cls(C + "Selection")
+    q = E.ctx.const("q", U)
     al, no, lf = E.call(C + "Selection.all"), E.call(C + "Selection.none"), E.call(C + "Selection.leaf")
-    E.prove("C18.AllSel.selects_everything", E.And(check(E, al), E.eq(E.method(al, "get_subselection", c), al)))
-    E.prove("C18.NoneSel.selects_nothing", E.And(z3.Not(check(E, no)), E.eq(E.method(no, "get_subselection", c), no)))
-    E.prove("C18.LeafSel.selects_only_the_empty_address",
-            E.And(check(E, lf), E.eq(E.method(lf, "get_subselection", c), no)))
-    s = sel(E, "s")
-    st = E.call(C + "StaticSel.build", s, d)
-    plain = E.new(C + "StaticSel", s=s, addr=d)
-    same = E.z(E.I.py_eq(c, d))
-    E.prove("C18.StaticSel.check_false", E.And(z3.Not(check(E, st)), z3.Not(check(E, plain))))
-    sub = E.method(st, "get_subselection", c)
-    E.prove("C18.StaticSel.subselection_matches_component",
-            E.And(E.Implies(same, E.eq(sub, s)), E.Implies(z3.Not(same), z3.Not(check(E, sub)))))
-    E.prove("C18.StaticSel.build.simplification_preserves_subselection_check",
-            check(E, sub) == check(E, E.method(plain, "get_subselection", c)))
-    wild = E.call(C + "StaticSel.build", s, Ellipsis)
-    E.prove("C18.StaticSel.wildcard_matches_any_component",
-            E.Or(E.eq(E.method(wild, "get_subselection", c), s), E.And(z3.Not(check(E, wild)), E.eq(wild, s))))
-    E.refutable("selection.atoms", E.eq(sub, s))
+    for nm, s in (("AllSel", al), ("NoneSel", no), ("LeafSel", lf)):
+        E.prove(f"C18.{nm}.check_agrees_with_denotation", check(E, s) == den(E, A, s, A.nil))
+        E.prove(f"C18.{nm}.get_subselection_agrees_with_denotation",
+                den(E, A, E.method(s, "get_subselection", c), q) == den(E, A, s, A.mk_cons(c, q)))
+    s = sel(E, A, "s")
+    opaque_facts(E, A, s, c, q)
+    for nm, addr in (("component", d), ("wildcard", Ellipsis)):
+        st = E.call(C + "StaticSel.build", s, addr)
+        plain = E.new(C + "StaticSel", s=s, addr=addr)
+        p = E.ctx.const("p", U)
+        E.prove(f"C18.StaticSel.build.{nm}.simplification_preserves_membership", den(E, A, st, p) == den(E, A, plain, p))
+        E.prove(f"C18.StaticSel.{nm}.check_agrees_with_denotation", check(E, plain) == den(E, A, plain, A.nil))
+        E.prove(f"C18.StaticSel.{nm}.get_subselection_agrees_with_denotation",
+                den(E, A, E.method(plain, "get_subselection", c), q) == den(E, A, plain, A.mk_cons(c, q)))
+    E.refutable("selection.atoms", den(E, A, E.call(C + "StaticSel.build", s, d), A.mk_cons(c, q)) == A.mem(s.t, q))
 
 
 @task("selection.call", props=["C18"], functions=FUNCS)
 def t_call(E):
     """S(a)[b] == S[a, b];  S((a, b)) == S(a)(b);  `in` is `[]`"""
-    s = sel(E, "s")
+    s = E.opaque("s", "Selection")
     a, b, c = comp(E, "a"), comp(E, "b"), comp(E, "c")
     sab = E.method(s, "__call__", (a, b))
     E.prove("C18.Selection.call.tuple_is_iterated_subselection",
@@ -142,7 +217,7 @@ def t_builder(E):
     E.prove("C18.SelectionBuilder.wildcard", E.z(E.method(w, "__getitem__", (x, y))) == E.z(E.I.py_eq(x, a)))
     e = E.method(at, "__getitem__", ())
     E.prove("C18.SelectionBuilder.empty_is_leaf", E.And(check(E, e), z3.Not(E.z(E.method(e, "__getitem__", (x,))))))
-    s0 = sel(E, "s0")
+    s0 = E.opaque("s0", "Selection")
     ext = E.method(s0, "extend", a, b)
     back = E.method(ext, "__call__", (a, b))
     E.prove("C18.Selection.extend_then_descend", E.Or(E.eq(back, s0), E.And(z3.Not(check(E, back)), z3.Not(check(E, s0)))))
